@@ -721,3 +721,52 @@ class kernel_equivalent_region_contract:
 
     def canary(sh, a, ret):
         check("canary: all three arguments have one type", ret.block.args[0].type == ret.block.args[1].type and ret.block.args[1].type == ret.block.args[2].type and sh["widths"][0] == sh["widths"][2])
+
+
+@contract
+class LowerRescale_channel_pairing_contract:
+    """per-channel parameter arrays: the (documented: channel-blind) lowering may use the parameters of ONE channel only, but
+    then the multiplier AND the shift of that same channel - a multiplier of one channel with the shift of another is the
+    rescale function of no channel"""
+    target = "snaxc.transforms.convert_kernel_to_linalg.LowerRescale.match_and_rewrite"
+    shapes = [dict(n=n) for n in (1, 2, 3)]
+    native = False
+    total = True
+    permissive = True
+    compare_ret = False
+
+    def args(sh, sym):
+        n = sh["n"]
+        return [[sym.int(f"mult{j}", 1, 1 << 30) for j in range(n)], [sym.int(f"shift{j}", 1, 63) for j in range(n)]]
+
+    def requires(sh, a):
+        mults, shifts = a
+        # the channels are distinguishable: no two share a multiplier or a shift
+        return all(mults[i] != mults[j] and shifts[i] != shifts[j] for i in range(len(mults)) for j in range(i))
+
+    def run(sh, a):
+        mults, shifts = a
+        k = kernel.RescaleOp(mk_ident_value(9301, i32), i8, 0, 0, list(mults), list(shifts), 127, -128, False)
+        body = Region([Block([k, linalg.YieldOp(k)])])
+        linalg.GenericOp([], [], body, None, None, [], None, None)
+        rw = PatternRewriter(k)
+        k2l.LowerRescale().match_and_rewrite(k, rw)
+        return rw.log
+
+    def ensures(sh, a, ret):
+        mults, shifts = a
+        reps = [e for e in ret if e[0] == "replace_op"]
+        check("the rescale is expanded", len(reps) == 1)
+        if len(reps) != 1:
+            return
+        ops = reps[0][2]
+        muls = [o for o in ops if isinstance(o, arith.MuliOp)]
+        shrs = [o for o in ops if isinstance(o, arith.ShRSIOp)]
+        check("one multiplication and one arithmetic shift right", len(muls) == 1 and len(shrs) == 1)
+        if len(muls) != 1 or len(shrs) != 1:
+            return
+        m, s = den(muls[0].operands[1]), den(shrs[0].operands[1])
+        check("the multiplier and the shift applied are those of ONE channel", any(m == mults[j] and s == shifts[j] for j in range(sh["n"])))
+
+    def canary(sh, a, ret):
+        check("canary: the shift applied is 0", any(isinstance(o, arith.ShRSIOp) and den(o.operands[1]) == 0 for e in ret if e[0] == "replace_op" for o in e[2]))
